@@ -10,12 +10,155 @@ VERIF = os.path.dirname(os.path.dirname(os.path.abspath(__file__)))
 REPO = os.environ.get('PKV_REPO', '/repo')
 DRIVER = os.path.join(VERIF, 'driver', 'target', 'debug', 'pkv-mirdump')
 
+# A build flavour = the compilation parameters a crate can observe through cfg / codegen behaviour.
+# Every flag is passed explicitly (after cargo's own), so a [profile] section in the crate's manifest - which
+# applies to the analysed root package but NOT to the crate's users - cannot move the analysed build.
 FLAVOURS = {
-    # dev profile: overflow checks + debug assertions ON (what C08 requires)
-    'dev': '-Zmir-opt-level=0 -Awarnings',
-    # second flavour for the thorough tier: differently shaped MIR, checks off
-    'rel': '-Zmir-opt-level=1 -C overflow-checks=off -C debug-assertions=off -Awarnings',
+    # what users get from `cargo build`: overflow checks + debug assertions ON (what C08 requires)
+    'dev': {'opt': 0, 'da': True, 'oc': True, 'panic': 'unwind', 'features': None},
+    # what users get from `cargo build --release`: differently shaped MIR, checks off
+    'rel': {'opt': 1, 'da': False, 'oc': False, 'panic': 'unwind', 'features': None},
 }
+
+
+def flavour_name(spec):
+    return 'da%d-oc%d-%s%s' % (spec['da'], spec['oc'], spec['panic'],
+                               '' if spec.get('features') is None else '+feat[%s]' % ','.join(spec['features']))
+
+
+def flavour_flags(spec):
+    return ['-Zmir-opt-level=%d' % spec['opt'],
+            '-Cdebug-assertions=%s' % ('on' if spec['da'] else 'off'),
+            '-Coverflow-checks=%s' % ('on' if spec['oc'] else 'off'),
+            '-Cpanic=%s' % spec['panic'], '-Awarnings']
+
+
+def cfg_predicates(repo):
+    """Every cfg predicate atom the crate's sources mention: set of (name, value|None)."""
+    import re
+    atoms = set()
+    srcdir = os.path.join(repo, 'src')
+    for root, _d, files in os.walk(srcdir):
+        for fn in files:
+            if not fn.endswith('.rs'):
+                continue
+            text = open(os.path.join(root, fn), encoding='utf-8', errors='replace').read()
+            for m in re.finditer(r'\bcfg(_attr)?\s*!?\s*\(', text):
+                i = m.end()
+                depth = 1
+                j = i
+                while j < len(text) and depth:
+                    depth += {'(': 1, ')': -1}.get(text[j], 0)
+                    j += 1
+                inner = text[i:j - 1]
+                if m.group(1):      # cfg_attr(predicate, attrs...): only the predicate
+                    d2 = 0
+                    for k, ch in enumerate(inner):
+                        d2 += {'(': 1, ')': -1}.get(ch, 0)
+                        if ch == ',' and d2 == 0:
+                            inner = inner[:k]
+                            break
+                for a in re.finditer(r'([A-Za-z_][A-Za-z0-9_]*)\s*(?:=\s*"([^"]*)")?', inner):
+                    if a.group(1) in ('not', 'any', 'all'):
+                        continue
+                    atoms.add((a.group(1), a.group(2)))
+    return atoms
+
+
+def manifest_features(repo):
+    """(all feature names, default feature list) from Cargo.toml (tiny TOML subset reader)."""
+    import re
+    try:
+        text = open(os.path.join(repo, 'Cargo.toml')).read()
+    except OSError:
+        return [], []
+    m = re.search(r'(?ms)^\[features\]\s*(.*?)(?=^\[|\Z)', text)
+    if not m:
+        return [], []
+    feats, default = [], []
+    for line in m.group(1).split('\n'):
+        k = re.match(r'\s*"?([A-Za-z0-9_\-]+)"?\s*=\s*\[(.*)\]', line)
+        if k:
+            if k.group(1) == 'default':
+                default = re.findall(r'"([^"]+)"', k.group(2))
+            else:
+                feats.append(k.group(1))
+    return feats, default
+
+
+def extra_flavours(repo):
+    """Additional build flavours demanded by the cfg predicates the crate uses, and the predicates that cannot be
+    varied on this host (-> fail closed).  Returns (dict name->spec, unsupported list)."""
+    import itertools
+    atoms = cfg_predicates(repo)
+    ignore = {'test', 'doc', 'doctest', 'docsrs', 'rustfmt', 'clippy', 'miri'}
+    axes = {}
+    unsupported = []
+    feats, default = manifest_features(repo)
+    for name, val in sorted(atoms, key=lambda x: (x[0], x[1] or '')):
+        if name in ignore and val is None:
+            continue
+        if name == 'debug_assertions':
+            axes['da'] = [True, False]
+            axes['oc'] = [True, False]      # mixed combinations (assertions off, overflow checks on) exist too
+        elif name == 'overflow_checks':
+            axes['oc'] = [True, False]
+        elif name == 'panic' and val in ('unwind', 'abort'):
+            axes['panic'] = ['unwind', 'abort']
+        elif name == 'feature' and val is not None:
+            axes.setdefault('features', set()).add(val)
+        else:
+            unsupported.append('%s%s' % (name, '="%s"' % val if val is not None else ''))
+    out = {}
+    if axes:
+        keys = [k for k in ('da', 'oc', 'panic') if k in axes]
+        fsets = [None]
+        if 'features' in axes:
+            fl = sorted(axes['features'])
+            fsets = []
+            for r in range(len(fl) + 1):
+                for c in itertools.combinations(fl, r):
+                    fsets.append(sorted(set(default) - set(fl) | set(c)))
+        for combo in itertools.product(*[axes[k] for k in keys]):
+            for fs in fsets:
+                spec = dict(FLAVOURS['dev'])
+                spec.update(dict(zip(keys, combo)))
+                spec['features'] = fs
+                nm = flavour_name(spec)
+                out[nm] = spec
+        if len(out) > 24:
+            unsupported.append('more than 24 build configurations (%d)' % len(out))
+            out = dict(list(out.items())[:24])
+    return out, unsupported
+
+
+def stable_lints(repo):
+    """Compile the crate with the users' (stable) toolchain and return the lints that signal that the analysed
+    nightly compilation may resolve names differently (`unstable_name_collisions`)."""
+    tmp = tempfile.mkdtemp(prefix='pkv-stable-')
+    try:
+        keep = ('PATH', 'HOME', 'CARGO_HOME', 'RUSTUP_HOME', 'TMPDIR', 'LANG', 'USER', 'TERM')
+        env = {k: v for k, v in os.environ.items() if k in keep}
+        env['CARGO_NET_OFFLINE'] = 'true'
+        p = subprocess.run(['cargo', 'check', '--offline', '--lib', '--message-format=json',
+                            '--config', 'build.target-dir=%s' % json.dumps(os.path.join(tmp, 'tgt'))],
+                           cwd=repo, env=env, capture_output=True, text=True)
+        hits = []
+        for line in p.stdout.split('\n'):
+            if not line.startswith('{'):
+                continue
+            try:
+                m = json.loads(line)
+            except ValueError:
+                continue
+            msg = m.get('message') or {}
+            code = (msg.get('code') or {}).get('code')
+            if code in ('unstable_name_collisions',):
+                sp = (msg.get('spans') or [{}])[0]
+                hits.append('%s at %s:%s: %s' % (code, sp.get('file_name'), sp.get('line_start'), msg.get('message', '')[:160]))
+        return hits, p.returncode
+    finally:
+        shutil.rmtree(tmp, ignore_errors=True)
 
 
 class FactError(Exception):
@@ -35,7 +178,7 @@ def ensure_driver():
         raise FactError('driver not built: run MANIFEST.setup_cmd (./setup.sh) first; missing ' + DRIVER)
 
 
-def extract(flavour='dev', repo=None, keep_json=None):
+def extract(flavour='dev', repo=None, keep_json=None, spec=None):
     """Compile `repo` with the dump driver; return the parsed fact document."""
     repo = repo or REPO
     dbg = os.environ.get('PKV_FACTS_FILE')   # debugging aid only: reuse a fact file (never set by registered commands)
@@ -59,13 +202,16 @@ def extract(flavour='dev', repo=None, keep_json=None):
             'PKV_OUT': out,
             'PKV_CRATE': 'pc_keyboard',
         })
-        flags = FLAVOURS[flavour].split()
+        spec = spec or FLAVOURS[flavour]
+        flags = flavour_flags(spec)
         cfg = [
             '--config', 'build.rustc-workspace-wrapper=%s' % json.dumps(DRIVER),
             '--config', 'build.rustflags=%s' % json.dumps(flags),
             '--config', 'build.target-dir=%s' % json.dumps(os.path.join(tmp, 'tgt')),
         ]
         t0 = time.time()
+        if spec.get('features') is not None:
+            cfg += ['--no-default-features'] + (['--features', ','.join(spec['features'])] if spec['features'] else [])
         p = subprocess.run(['cargo', '+nightly', 'check', '--offline', '--lib', '--quiet'] + cfg,
                            cwd=repo, env=env, capture_output=True, text=True)
         if p.returncode != 0:
